@@ -60,7 +60,9 @@ type Cert struct {
 	NB, NA             int64 // unix seconds
 	Key                int   // id of the certified public key (>= 1)
 	Nonce              int   // distinguishes re-issued certificates with identical content
-	Raw                int   // identity of the DER bytes (assigned by Factory.Build)
+	UTF8               bool  // the subject is DER-encoded with UTF8String values (as openssl writes them)
+	// instead of PrintableString: same parsed name, other bytes; not part of the model
+	Raw int // identity of the DER bytes (assigned by Factory.Build)
 }
 
 func (c Cert) memoKey() string {
@@ -242,6 +244,24 @@ func (n Name) PKIX() pkix.Name {
 	return p
 }
 
+// RawUTF8 encodes the same distinguished name as PKIX, attribute values as UTF8String.
+func (n Name) RawUTF8() []byte {
+	str := func(v string) asn1.RawValue {
+		return asn1.RawValue{Class: asn1.ClassUniversal, Tag: asn1.TagUTF8String, Bytes: []byte(v)}
+	}
+	seq := pkix.RDNSequence{
+		{{Type: asn1.ObjectIdentifier{2, 5, 4, 6}, Value: str("CH")}},
+		{{Type: asn1.ObjectIdentifier{2, 5, 4, 10}, Value: str(fmt.Sprintf("org %d", n.ID/4))}},
+		{{Type: asn1.ObjectIdentifier{2, 5, 4, 3}, Value: str(fmt.Sprintf("subject %d", n.ID))}},
+	}
+	if n.IA.Kind != 0 {
+		seq = append(seq, pkix.RelativeDistinguishedNameSET{{Type: cppki.OIDNameIA, Value: str(n.iaString())}})
+	}
+	raw, err := asn1.Marshal(seq)
+	must(err)
+	return raw
+}
+
 func ts(sec int64) time.Time { return time.Unix(T0+sec, 0).UTC() }
 
 type basicConstraints struct {
@@ -267,6 +287,9 @@ func (f *Factory) Build(c Cert) (*x509.Certificate, Cert) {
 		MaxPathLenZero:        c.PathLen == 0,
 		SubjectKeyId:          KeyID(c.SKID),
 		AuthorityKeyId:        KeyID(c.AKID),
+	}
+	if c.UTF8 {
+		tmpl.RawSubject = c.Subject.RawUTF8()
 	}
 	if c.BC && !c.CA && c.PathLen >= 0 {
 		panic("trcgen: crypto/x509 cannot encode a path length on a non-CA certificate")
@@ -316,6 +339,13 @@ func (f *Factory) Build(c Cert) (*x509.Certificate, Cert) {
 	must(err)
 	cert, err := x509.ParseCertificate(der)
 	must(err)
+	if c.UTF8 {
+		// the generator's premise: other bytes, same name
+		plain := c.Subject.PKIX()
+		if cert.Subject.String() != plain.String() && cert.Subject.CommonName != plain.CommonName {
+			panic("trcgen: UTF8String subject does not parse to the same name")
+		}
+	}
 	f.nextID++
 	f.certs[k] = &built{raw: f.nextID, cert: cert}
 	f.byDER[string(cert.Raw)] = f.nextID
